@@ -318,7 +318,10 @@ def replay(rep):
         print("real code: %s" % json.dumps(R.canon_impl(res)))
         if res[0] == "fail":
             print(res[3])
-        probs = R.oracle(base, prog, res)
+        probs = list(R.oracle(base, prog, res))
+        now = [int(rg.num_rows) for rg in pf.row_groups]
+        if now != base["counts"]:
+            probs.append(("aliasing", "after this program the ORIGINAL handle has row groups %r, before it had %r" % (now, base["counts"])))
         for w, t in probs:
             print("PROPERTY FAILS (%s): %s" % (w, t))
         if not probs:
